@@ -8,6 +8,7 @@ A case is one life of a small Burrow: configuration + a list of events
                                             environment `cycle` (the dict clustergen.parse produces for one cycle)
     ("S", cluster, group, order)            two evaluator requests for (cluster, group): order 0 = full view then
                                             problems-only view, 1 = the reverse
+    ("L", cluster)                          the consumer list of the cluster (StorageFetchConsumers)
 
 Case line / output formats: /verif/ocaml/drv_pipeline.ml.  The part of a Y event behind "@" (what the REAL cluster module
 emitted in that cycle) is filled in by `render` from the output of the cluster probe (phase 1 of the check).
@@ -79,6 +80,7 @@ def render(case, cluster_out):
     for c, a, d in case["clusters"]:
         toks += [str(c), str(a), str(d)]
     toks.append(str(len(case["events"])))
+    case.pop("cluster_died", None)
     seen = {}
     for ev in case["events"]:
         if ev[0] == "T":
@@ -87,6 +89,8 @@ def render(case, cluster_out):
             toks += ["K", str(ev[1]), str(ev[2]), hx(ev[3]), hx(ev[4])]
         elif ev[0] == "S":
             toks += ["S", str(ev[1]), hx(ev[2]), str(ev[3])]
+        elif ev[0] == "L":
+            toks += ["L", str(ev[1])]
         elif ev[0] == "Y":
             c = ev[1]
             k = seen.get(c, 0)
@@ -95,7 +99,10 @@ def render(case, cluster_out):
             obs = cluster_out.get(c, [])
             o = obs[k] if k < len(obs) else None
             if o is None or o == "CRASH":
-                raise ClusterCrashed(c, k)
+                # the real cluster module died in this cycle (or an earlier one of this cluster): nothing more reaches storage
+                case["cluster_died"] = "the real cluster module of k%d died in its cycle %d" % (c, k if o is not None else len(obs) - 1)
+                toks += ["0", "0"]
+                continue
             toks += [str(len(o["D"]))] + [str(d[0]) for d in o["D"]]
             toks.append(str(len(o["U"])))
             for (t, p, off, cnt) in o["U"]:
@@ -175,8 +182,8 @@ def _meta_msg(group, rng, topics_np):
 def _hostile(rng):
     line, tags = wiregen.gen_hostile(rng)
     f = line.split()
-    key = bytes.fromhex(f[4]) if f[4] != "-" else b""
-    value = bytes.fromhex(f[5]) if f[5] != "-" else b""
+    key = bytes.fromhex(f[-2]) if f[-2] != "-" else b""          # "msg ... <keyhex> <valuehex>"
+    value = bytes.fromhex(f[-1]) if f[-1] != "-" else b""
     return key, value, "hostile:" + tags[-1].split(":")[0]
 
 
@@ -300,8 +307,11 @@ def gen_case(rng, focus=None):
         elif r < kw[0] + kw[1]:
             do_cycle(c)
         elif r < kw[0] + kw[1] + kw[2]:
-            g = rng.choice(groups + [rng.choice(GROUPS + ODD_GROUPS)])
-            events.append(("S", c, g, rng.randrange(0, 2)))
+            if rng.random() < 0.2:
+                events.append(("L", c))
+            else:
+                g = rng.choice(groups + [rng.choice(GROUPS + ODD_GROUPS)])
+                events.append(("S", c, g, rng.randrange(0, 2)))
         elif r < kw[0] + kw[1] + kw[2] + kw[3]:
             key, value, tg = _hostile(rng)
             if rng.random() < 0.4:
@@ -348,8 +358,12 @@ def gen_case(rng, focus=None):
         now += rng.choice([0, 1, 30])
         events.append(("T", now))
     for c, _, _ in clusters:
+        if rng.random() < 0.5:
+            events.append(("L", c))
         for g in groups:
             events.append(("S", c, g, rng.randrange(0, 2)))
+        if rng.random() < 0.5:
+            events.append(("L", c))
     return dict(config=cf, clusters=clusters, events=events, tags=tags)
 
 
@@ -564,6 +578,25 @@ class Oracle:
                 fails.append("%s: the problems-only view does not list exactly the partitions worse than OK" % where)
         return fails
 
+    def listing(self, c, seg, where):
+        """the consumer list: no group the lists reject; every group with outstanding accepted commits that has not expired"""
+        f = seg.split()
+        if f[:1] != ["L"] or len(f) < 2:
+            return ["%s: malformed list answer %r" % (where, seg)]
+        if f[1] == "NIL":
+            return ["%s: the configured cluster has no consumer list" % where]
+        names = [bytes.fromhex(x) if x != "-" else b"" for x in f[2:]]
+        fails = []
+        for g in names:
+            if not self.visible(c, g):
+                fails.append("%s: group %r is rejected by the lists but listed" % (where, g))
+        for g, grp in self.cl[c].groups.items():
+            live = any(v for v in grp["parts"].values())
+            if live and not (self.now - self.cf["expire"]) * 1000 > grp["last"] and g not in names:
+                fails.append("%s: group %r has accepted commits but is not listed" % (where, g))
+        self.stats["listings"] = self.stats.get("listings", 0) + 1
+        return fails
+
     def check(self, case, out_line):
         segs = parse_output(out_line)
         si = 0
@@ -575,6 +608,12 @@ class Oracle:
                 self.cycle(ev[1], ev[2])
             elif ev[0] == "K":
                 self.message(ev[1], ev[2], ev[3], ev[4])
+            elif ev[0] == "L":
+                if si + 1 > len(segs):
+                    fails.append("event %d: no answer recorded" % i)
+                    break
+                fails += self.listing(ev[1], segs[si], "event %d list(k%d)" % (i, ev[1]))
+                si += 1
             elif ev[0] == "S":
                 if si + 2 > len(segs):
                     fails.append("event %d: no answer recorded (%s)" % (i, segs[si:] or "output ends"))
@@ -606,4 +645,6 @@ def describe(case):
             out.append("Y cluster=k%d %s" % (ev[1], " ".join(cycle_tokens(ev[2]))))
         elif ev[0] == "S":
             out.append("S cluster=k%d group=%r order=%d" % (ev[1], ev[2], ev[3]))
+        elif ev[0] == "L":
+            out.append("L cluster=k%d" % ev[1])
     return out
